@@ -130,6 +130,16 @@ def desugar_conditionals(stmts):
                 node = ast.If(test=thru(copy.deepcopy(ie.test)), body=expand(a), orelse=expand(b), lineno=st.lineno, col_offset=0)
                 return [node]
             return [st]
+        if isinstance(st, ast.AugAssign) and isinstance(st.target, ast.Name):
+            ie = find_ifexp(st.value)
+            if ie is not None:
+                a = copy.deepcopy(st)
+                b = copy.deepcopy(st)
+                ia, ib = find_ifexp(a.value), find_ifexp(b.value)
+                a.value = replace(a.value, ia, ia.body) if a.value is not ia else ia.body
+                b.value = replace(b.value, ib, ib.orelse) if b.value is not ib else ib.orelse
+                return [ast.If(test=thru(copy.deepcopy(ie.test)), body=expand(a), orelse=expand(b), lineno=st.lineno, col_offset=0)]
+            return [st]
         if isinstance(st, ast.If):
             st = copy.copy(st)
             st.test = thru(st.test)
@@ -405,8 +415,9 @@ def r3(ctx):
         if len(role) == 3 and not stream.filters:
             zipped = True
             r_, c_, v_ = role["row_indices"], role["col_indices"], role["values"]
-            st = {U(n.targets[0]).replace(" ", ""): U(n.value).replace(" ", "") for n in lp[0].body if isinstance(n, ast.Assign)}
-            both = st == {f"{dn}[{r_},{c_}]": v_, f"{dn}[{c_},{r_}]": v_} and len(lp[0].body) == 2
+            st = {U(t_).replace(" ", ""): U(n.value).replace(" ", "") for n in lp[0].body if isinstance(n, ast.Assign) for t_ in n.targets}
+            both = st == {f"{dn}[{r_},{c_}]": v_, f"{dn}[{c_},{r_}]": v_} and sum(len(n.targets) for n in lp[0].body if isinstance(n, ast.Assign)) == 2 \
+                and all(isinstance(n, ast.Assign) for n in lp[0].body)
         else:
             raise AnalysisError(f"{f.site()}: the zipped loop filling the dense matrix does not run over the filled prefixes of row_indices / col_indices / values")
     if ok and not lp:
